@@ -328,6 +328,48 @@ impl Monitor for C11 {
         if out.is_empty() && ev.out.ok && ev.salt % 24 == 7 {
             self.settle_all(ev.post, ev.idx, cov, &mut out);
         }
+        // Migration probe on a copy: a pool in the legacy layout (reward authorities still stored in the spare space of
+        // reward slots 1 and 2) is migrated by the permission-less `migrate_repurpose_reward_authority_space`. The
+        // migration may change nothing but those two 32-byte fields (which become zero): every reward keeps its mint,
+        // vault, emission rate and accumulator, so accrual goes on at the set rate.
+        if out.is_empty() && ev.out.ok && ev.salt % 16 == 3 {
+            for n in ["whirlpool", "whirlpool_one", "whirlpool_two"] {
+                let Some(wk) = ev.tx.ixs.iter().filter_map(wpix::decode).find_map(|c| c.acct(n)) else { continue };
+                let Some(acc) = ev.post.get(&wk).cloned() else { continue };
+                let Some(p) = decode::pool(&acc.data) else { continue };
+                if !p.rewards.iter().any(|r| r.initialized()) {
+                    continue;
+                }
+                let mut legacy = (*acc.data).clone();
+                let ext = |i: usize| decode::POOL_OFF_REWARDS + i * decode::REWARD_INFO_LEN + 64;
+                for i in [1usize, 2] {
+                    for (j, b) in legacy[ext(i)..ext(i) + 32].iter_mut().enumerate() {
+                        *b = 0xa0 ^ (j as u8) ^ (i as u8);
+                    }
+                }
+                let mut f = ev.post.clone();
+                f.put(wk, crate::rt::Account { lamports: acc.lamports, data: std::rc::Rc::new(legacy.clone()), owner: acc.owner, executable: false });
+                let mig = crate::ix::mk(whirlpool::accounts::MigrateRepurposeRewardAuthoritySpace { whirlpool: wk }, whirlpool::instruction::MigrateRepurposeRewardAuthoritySpace {});
+                let r = crate::rt::exec_tx_simple(&mut f, &crate::rt::Tx { ixs: vec![mig] });
+                cov.probe("legacy_pool_migration_probes");
+                cov.eval(format!("migrate_legacy_pool|rewards={}|ok={}", p.rewards.iter().filter(|r| r.initialized()).count(), r.ok));
+                if !r.ok {
+                    cov.note("c11_migration_of_a_legacy_pool_refused");
+                    continue;
+                }
+                let mut expect = legacy;
+                for i in [1usize, 2] {
+                    expect[ext(i)..ext(i) + 32].fill(0);
+                }
+                let got = f.data(&wk).map(|d| d.to_vec()).unwrap_or_default();
+                if got != expect {
+                    let first = got.iter().zip(expect.iter()).position(|(a, b)| a != b);
+                    let q = decode::pool(&got);
+                    out.push(viol("migration_changes_reward_state", ev.idx, format!("migrate_repurpose_reward_authority_space on a legacy-layout copy of pool {} changed more than the two repurposed fields (first differing byte {:?}); rewards before {:?}, after {:?}", wk, first, p.rewards.iter().map(|r| (r.initialized(), r.emissions_per_second_x64, r.growth_global_x64)).collect::<Vec<_>>(), q.map(|q| q.rewards.iter().map(|r| (r.initialized(), r.emissions_per_second_x64, r.growth_global_x64)).collect::<Vec<_>>()))));
+                }
+                break;
+            }
+        }
         out
     }
     fn end_of_run(&mut self, l: &crate::rt::Ledger, cov: &mut Coverage) -> Vec<Violation> {
